@@ -191,9 +191,10 @@ impl<'a> World<'a> {
         let Ok(mut iss) = issues.get_mut(&id) else { return };
         let comments: Vec<radicle::cob::thread::CommentId> = iss.comments().map(|(c, _)| *c).collect();
         let a_comment = comments[self.ch.pick_usize(comments.len())];
-        let which = if self.own == "C07" { self.ch.weighted(&[8, 2, 1, 2, 3, 3, 1, 1, 1]) } else { self.ch.weighted(&[5, 3, 2, 2, 3, 2, 2, 2, 2]) };
+        let which = if self.own == "C07" { self.ch.weighted(&[8, 2, 1, 2, 3, 3, 1, 1, 1, 0]) } else { self.ch.weighted(&[10, 6, 4, 4, 6, 4, 4, 4, 4, 1]) };
         let mut noted_labels: Option<Vec<Label>> = None;
         let mut noted_assignees: Option<Vec<Did>> = None;
+        let mut remove = false;
         let (what, out): (&str, Result<(), String>) = match which {
             0 => ("comment", iss.comment(if self.ch.pick(4) == 0 { self.ch.choose(&BODIES).to_string() } else { self.tag(r, 'B') }, a_comment, [], &signer).map(|_| ()).map_err(|e| e.to_string())),
             1 => ("edit-title", iss.edit(if self.ch.pick(3) == 0 { self.ch.choose(&TITLES).to_string() } else { self.tag(r, 'T') }, &signer).map(|_| ()).map_err(|e| e.to_string())),
@@ -227,9 +228,19 @@ impl<'a> World<'a> {
                 }
                 ("assign", out)
             }
-            _ => ("react", iss.react(a_comment, Reaction::new('👍').unwrap(), self.ch.pick(2) == 0, &signer).map(|_| ()).map_err(|e| e.to_string())),
+            8 => ("react", iss.react(a_comment, Reaction::new('👍').unwrap(), self.ch.pick(2) == 0, &signer).map(|_| ()).map_err(|e| e.to_string())),
+            _ => {
+                remove = true;
+                ("remove", Ok(()))
+            }
         };
         drop(iss);
+        let out = if remove {
+            self.res.hit("probe.cob.issue_removed");
+            issues.remove(&id, &signer).map_err(|e| e.to_string())
+        } else {
+            out
+        };
         drop(issues);
         if let Some(l) = noted_labels {
             self.note_labels(r, &id, l.iter());
@@ -307,7 +318,8 @@ impl<'a> World<'a> {
         let rev = revs[self.ch.pick_usize(revs.len())];
         let merged_before = matches!(p.state(), patch::State::Merged { .. });
         let reviews: Vec<patch::ReviewId> = p.revisions().flat_map(|(_, rv)| rv.reviews().map(|(_, r)| r.id()).collect::<Vec<_>>()).collect();
-        let which = if c08 { self.ch.weighted(&[2, 2, 1, 9, 6, 2, 1, 0, 1]) } else if self.own == "C07" { self.ch.weighted(&[8, 2, 7, 2, 2, 1, 2, 1, 4]) } else { self.ch.weighted(&[4, 3, 3, 5, 3, 2, 2, 1, 2]) };
+        let which = if c08 { self.ch.weighted(&[2, 2, 1, 9, 6, 2, 1, 0, 1, 0]) } else if self.own == "C07" { self.ch.weighted(&[8, 2, 7, 2, 2, 1, 2, 1, 4, 0]) } else { self.ch.weighted(&[8, 6, 6, 10, 6, 4, 4, 2, 4, 1]) };
+        let mut p_remove = false;
         let mut p_noted_labels: Option<Vec<Label>> = None;
         let mut p_noted_assignees: Option<Vec<Did>> = None;
         let (what, out): (&str, Result<(), String>) = match which {
@@ -347,6 +359,10 @@ impl<'a> World<'a> {
                 }
                 ("assign", out)
             }
+            9 => {
+                p_remove = true;
+                ("remove", Ok(()))
+            }
             _ => {
                 if reviews.is_empty() {
                     let out = p.label([Label::new("wip").unwrap()], &signer).map(|_| ()).map_err(|e| e.to_string());
@@ -366,6 +382,12 @@ impl<'a> World<'a> {
         };
         let merged_after = matches!(p.state(), patch::State::Merged { .. });
         drop(p);
+        let out = if p_remove {
+            self.res.hit("probe.cob.patch_removed");
+            patches.remove(&id, &signer).map_err(|e| e.to_string())
+        } else {
+            out
+        };
         drop(patches);
         if let Some(l) = p_noted_labels {
             self.note_labels(r, &id, l.iter());
